@@ -109,6 +109,7 @@ type Sim struct {
 	steps   int
 	start   time.Time
 	namer   func(point string, arg any) string
+	skip    func(point string, arg any) bool // yield points that must not park in the current state
 	onStep  func(t *Task) // called (scheduler goroutine) just before a task is released
 	onIdle  func() error  // invariant hook, called after every quiescence
 	H       *History
@@ -266,6 +267,9 @@ func (s *Sim) Yield(point string) { s.Hook(point, nil) }
 // Hook is installed as server.SimHook: a scheduling point in repo code.
 func (s *Sim) Hook(point string, arg any) {
 	if !s.active.Load() || s.disabled[point] {
+		return
+	}
+	if s.skip != nil && s.skip(point, arg) {
 		return
 	}
 	gid := curGID()
